@@ -8,8 +8,9 @@
    the state root and the change count are Section variables: ANY functions.  Everything the
    generator decides (iteration order, past/future classification, future lists, re-inclusion of
    future transactions, duplicate exclusion, cost limit, byte limit, built-in transactions) is
-   modelled as the code has it, including Go int64 wrap-around of the unchecked additions and
-   subtractions.
+   modelled as the code has it (tree with the fixes 3df99c9 cost-limit comparison against the
+   remaining budget and 2f9cdcc skip of pool transactions named like a built-in), including Go int64
+   wrap-around of the unchecked additions and subtractions.
 
    Outside the model (oracles assumed not to fire; see checks/C45.json): context cancellation and
    timers, round mismatch / round timeout flags, missing-node state errors and their network sync,
@@ -173,6 +174,14 @@ Section BlockGen.
          ti_cost := bg_wrap (ti_cost tii + c); ti_bytes := ti_bytes tii; ti_idx := ti_idx tii;
          ti_failed := ti_failed tii |}.
 
+  Definition bg_mark_invalid (g : bg_gs) (t : bg_txn) : bg_gs :=
+    let tii := gs_tii g in
+    bg_with_tii g
+      {| ti_map := ti_map tii; ti_future := ti_future tii; ti_current := ti_current tii;
+         ti_past := ti_past tii; ti_invalid := ti_invalid tii ++ [t];
+         ti_cost := ti_cost tii; ti_bytes := ti_bytes tii; ti_idx := ti_idx tii;
+         ti_failed := ti_failed tii |}.
+
   (* txnProcessorHandlerFunc: (new generator state, processed successfully) *)
   Definition bg_process (cfg : bg_cfg) (g : bg_gs) (t : bg_txn) : bg_gs * bool :=
     let tii := gs_tii g in
@@ -226,7 +235,10 @@ Section BlockGen.
     match bt_cost t with
     | None => ItCont g
     | Some c =>
-        if bc_maxcost cfg <=? bg_wrap (ti_cost (gs_tii g) + c) then ItCont g else
+        (* a pool transaction carrying a built-in function name is marked invalid and skipped *)
+        if negb (bt_fname t =? 0) then ItCont (bg_mark_invalid g t) else
+        (* cost >= MaxBlockCost - tii.cost *)
+        if bg_wrap (bc_maxcost cfg - ti_cost (gs_tii g)) <=? c then ItCont g else
         let '(g1, ok) := bg_process cfg g t in
         if negb ok then ItCont g1 else
         let g2 := bg_add_cost g1 c in
@@ -258,7 +270,7 @@ Section BlockGen.
             match bt_cost t with
             | None => Some g
             | Some c =>
-                if bc_maxcost cfg <=? bg_wrap (ti_cost tii + c) then Some g else
+                if bg_wrap (bc_maxcost cfg - ti_cost tii) <=? c then Some g else
                 let '(g1, ok) := bg_process cfg g t in
                 if ok then
                   let g2 := bg_add_cost g1 c in
@@ -290,6 +302,17 @@ Section BlockGen.
     match l with
     | [] => Some acc
     | t :: r => match bt_cost t with None => None | Some c => bg_sum_costs r (bg_wrap (acc + c)) end
+    end.
+
+  (* VerifyBlock's cost loop: estimate error or c > MaxBlockCost - cost => rejected (None) *)
+  Fixpoint bg_ver_costs (max : Z) (l : list bg_txn) (acc : Z) : option Z :=
+    match l with
+    | [] => Some acc
+    | t :: r =>
+        match bt_cost t with
+        | None => None
+        | Some c => if bg_wrap (max - acc) <? c then None else bg_ver_costs max r (bg_wrap (acc + c))
+        end
     end.
 
   Record bg_block := { bk_txns : list (bg_txn * bg_out); bk_root : Z; bk_chg : Z }.
@@ -356,7 +379,7 @@ Section BlockGen.
     if negb (forallb (fun t => bg_within (bc_bdate cfg) (bt_cdate t) (bc_tol cfg) && bt_valid t) txns)
     then VerFail 2 else
     if negb (bg_nodupb (bg_builtin_names txns)) then VerFail 2 else
-    match bg_sum_costs txns 0 with
+    match bg_ver_costs (bc_maxcost cfg) txns 0 with
     | None => VerFail 3
     | Some c =>
         if bc_maxcost cfg <? c then VerFail 3 else
